@@ -3,11 +3,17 @@
 // StreamBuffer -> StreamBufferReader, File -> File, Socket -> Socket (in-memory Socket_ subclass, and
 // an AF_UNIX socketpair for the real Socket_::read/write loops). Oracle: a plain C++ reference
 // serializer (memcpy + byte reverse) for the exact bytes; values read back must be bit-identical.
+// Channel variants: partial transfers on the socketpair (::read/::recv/::send/::write interposed below and capped
+// at k bytes per call), the non-blocking early return, byte-block readers and skip, File objects whose order is set
+// before open / that are reopened in mid-stream, a Socket whose order is set through a second handle; the buffer
+// written into itself (sb << *sb) and a 2400-byte item that puts the buffer on its realloc growth path.
 #include <asl/StreamBuffer.h>
 #include <asl/File.h>
 #include <asl/Socket.h>
 #include <sys/socket.h>
 #include <sys/stat.h>
+#include <sys/ioctl.h>
+#include <dlfcn.h>
 #include <unistd.h>
 #include <errno.h>
 #include <limits>
@@ -17,10 +23,10 @@ using vf::fmt;
 
 // ---------------------------------------------------------------------------------------------
 // item alphabet (oracle side: plain data, no asl types)
-enum Ty { U8, I8, I16, U16, I32, U32, I64, U64, F32, F64, BOOL, NTY };
-static const int TYSIZE[NTY] = { 1, 1, 2, 2, 4, 4, 8, 8, 4, 8, 1 };
-static const char* TYNAME[NTY] = { "u8", "i8", "i16", "u16", "i32", "u32", "i64", "u64", "f32", "f64", "bool" };
-enum Kind { SCALAR, ARRAY, STRING, CSTR, LSTRING };
+enum Ty { U8, I8, I16, U16, I32, U32, I64, U64, F32, F64, BOOL, C8, NTY }; // C8 = plain char (its own overloads)
+static const int TYSIZE[NTY] = { 1, 1, 2, 2, 4, 4, 8, 8, 4, 8, 1, 1 };
+static const char* TYNAME[NTY] = { "u8", "i8", "i16", "u16", "i32", "u32", "i64", "u64", "f32", "f64", "bool", "char" };
+enum Kind { SCALAR, ARRAY, STRING, CSTR, LSTRING, SELF }; // SELF: the StreamBuffer written into itself (sb << *sb), a ByteArray holding the stream so far
 enum Pat { P_DIST, P_MIN, P_MAX, P_QNAN, P_SNAN, P_MIX, NPAT };
 static const char* PATNAME[NPAT] = { "d", "min", "max", "qnan", "snan", "mix" };
 enum Ord { O_BIG, O_LITTLE, O_NATIVE };
@@ -29,21 +35,24 @@ static const asl::Endian ORDASL[3] = { asl::ENDIAN_BIG, asl::ENDIAN_LITTLE, asl:
 
 struct Item {
 	Kind kind; Ty ty; int n; Pat pat;
+	int var; // LSTRING only: the String read into is fresh (0), holds 10 chars inline (1), holds 60 chars on the heap (2)
 	std::string name() const {
 		switch (kind) {
 		case SCALAR: return std::string(TYNAME[ty]) + "." + PATNAME[pat];
 		case ARRAY: return fmt("a%d.%s.%s", n, TYNAME[ty], PATNAME[pat]);
 		case STRING: return fmt("s%d", n);
 		case CSTR: return fmt("c%d", n);
-		default: return fmt("ls%d", n);
+		case SELF: return "self";
+		default: return fmt("ls%d%s", n, var == 1 ? "i" : var == 2 ? "h" : "");
 		}
 	}
 };
 static bool parse_item(const std::string& s, Item& it) {
-	it.kind = SCALAR; it.ty = U8; it.n = 1; it.pat = P_DIST;
+	it.kind = SCALAR; it.ty = U8; it.n = 1; it.pat = P_DIST; it.var = 0;
 	if (s.empty()) return false;
-	if (s[0] == 's' || s[0] == 'c') { it.kind = s[0] == 's' ? STRING : CSTR; it.n = atoi(s.c_str() + 1); return true; }
-	if (s.compare(0, 2, "ls") == 0) { it.kind = LSTRING; it.n = atoi(s.c_str() + 2); return true; }
+	if (s == "self") { it.kind = SELF; it.n = 0; return true; }
+	if ((s[0] == 's' || s[0] == 'c') && s.size() > 1 && isdigit((unsigned char)s[1])) { it.kind = s[0] == 's' ? STRING : CSTR; it.n = atoi(s.c_str() + 1); return true; }
+	if (s.compare(0, 2, "ls") == 0) { it.kind = LSTRING; it.n = atoi(s.c_str() + 2); char e = s[s.size() - 1]; it.var = e == 'i' ? 1 : e == 'h' ? 2 : 0; return true; }
 	std::string rest = s;
 	if (s[0] == 'a') {
 		it.kind = ARRAY; it.n = atoi(s.c_str() + 1);
@@ -77,6 +86,7 @@ static void elem_pattern(Ty ty, Pat pat, char* p) {
 	case U32: put_native<uint32_t>(p, mn ? 0 : 0xffffffffu); break;
 	case I64: put_native<int64_t>(p, mn ? std::numeric_limits<int64_t>::min() : std::numeric_limits<int64_t>::max()); break;
 	case U64: put_native<uint64_t>(p, mn ? 0 : ~(uint64_t)0); break;
+	case C8: put_native<char>(p, mn ? std::numeric_limits<char>::min() : std::numeric_limits<char>::max()); break;
 	case F32:
 		if (pat == P_MIN) put_native<float>(p, -std::numeric_limits<float>::max());
 		else if (pat == P_MAX) put_native<float>(p, std::numeric_limits<float>::max());
